@@ -10,17 +10,30 @@ FALSY = [
     {"nodes": [{"k": "wfc", "polls": 3, "init": True, "states": [False, 0.0, True]}]},
     {"nodes": [{"k": "child", "body": [{"k": "wfc", "polls": 3, "init": 1, "states": [0, 0, 5]}]}, {"k": "step"}]},
 ]
+# check functions that take time: the (asynchronous) START is sent, or still in flight, while the poll runs
+SLOW = [
+    {"nodes": [{"k": "wfc", "polls": 2, "dur": 0.3}, {"k": "step"}]},
+    {"nodes": [{"k": "step"}, {"k": "wfc", "polls": 3, "dur": 1.2}]},
+    {"nodes": [{"k": "child", "body": [{"k": "wfc", "polls": 2, "dur": 0.15}]}, {"k": "wait"}]},
+]
 
 
 def run(ctx):
     run_durable(ctx, model=["s03_child_wfc", "s12_wfc_three_polls", "s17_child_wfc_inside", "s05_wfcb_childfail_wfcfail"],
-                programs=["s03_child_wfc", "s12_wfc_three_polls", "s17_child_wfc_inside", "s05_wfcb_childfail_wfcfail"] + FALSY,
-                oracle_fns=[oracles.c13],
+                programs=["s03_child_wfc", "s12_wfc_three_polls", "s17_child_wfc_inside", "s05_wfcb_childfail_wfcfail"] + FALSY + SLOW,
+                oracle_fns=[oracles.c13, oracles.c03],
                 gen_kw={"kinds": ["wfc", "wfc", "step", "wait", "child"]},
                 scen_kw={"crash": 0.6, "paging": 0.3},
                 sweep=["s12_wfc_three_polls"],
                 extra_rule="Oracle: poll n+1 receives exactly what poll n returned (typed repr), incl. falsy states (0, [], '', {}, None, False); "
                            "numbering +1 per accepted RETRY, repeated after a crash; stops at the strategy's stop; delays >= 1; no poll after terminal.")
+    # latency sweep: the poll ends while the START call is queued / in flight / answered
+    from checks.durable_common import run_campaign
+    items = [(p, {"seed": 31 + k, "api_latency": lat, "max_inv": 14, "strategy": "pct" if k % 2 else "random"})
+             for p in SLOW for lat in (0.0, 0.05, 0.15, 0.3, 0.6) for k in range(2 if ctx.quick else 8)]
+    for e in run_campaign(ctx, items):
+        for fn in (oracles.c13, oracles.c03, oracles.c07):
+            fn(ctx, e)
     from checks import policy_tables
     policy_tables.wait_tables(ctx)
 
